@@ -196,11 +196,12 @@ def run(chk):
             for pos in range(len(base) + 1):
                 seq = tuple(base[:pos] + [(special,)] + base[pos:] + [("ok",)] * 6)
                 for retries in [0, 2]:
-                    obs = observe(seq, 4, retries, False, False)
-                    cases.append(("special", (seq, 4, retries, False, False, None), obs))
-                    check_oracle(seq, 4, retries, False, False, obs)
-                    chk.case(("s", seq, retries))
-                    npos += 1
+                    for f in [False, True]:
+                        obs = observe(seq, 4, retries, f, False)
+                        cases.append(("special", (seq, 4, retries, f, False, None), obs))
+                        check_oracle(seq, 4, retries, f, False, obs)
+                        chk.case(("s", seq, retries, f))
+                        npos += 1
     chk.count("special_positions", npos)
 
     # ---- 3. random long sequences (many invocations, several data points, warm-up -> the
@@ -238,7 +239,7 @@ def run(chk):
     ngroup = 0
     for sched in ["batch", "round-robin", "random"]:
         for pos in range(3):
-            for seed in ([1] if sched != "random" else [1, 2, 3, 4, 5]):
+            for seed, f in ([(1, False), (1, True)] if sched != "random" else [(1, False), (2, True), (3, False), (4, True), (5, False)]):
                 specs = [RunSpec("B%d" % i, exe=("bad" if i % 2 == 0 else "good"), invocations=2) for i in range(5)]
                 raw = raw_config(specs)
                 if os.path.exists(data_file):
@@ -251,19 +252,19 @@ def run(chk):
                         if count["n"] > pos:
                             return 127, "not found"
                     return 0, rebench_log([1.0])
-                ses = run_session(raw, script, data_file, scheduler=sched, seed=seed)
+                ses = run_session(raw, script, data_file, scheduler=sched, seed=seed, argv=(["-f"] if f else []))
                 bad_starts = [s for s in ses.starts if s[0] in ("B0", "B2", "B4")]
                 good = [s for s in ses.starts if s[0] in ("B1", "B3")]
-                chk.case(("g", sched, pos, seed))
+                chk.case(("g", sched, pos, seed, f))
                 ngroup += 1
-                case = dict(scheduler=sched, missing_after=pos, seed=seed, starts=ses.starts)
+                case = dict(scheduler=sched, missing_after=pos, seed=seed, f=f, starts=ses.starts)
                 if len(bad_starts) != pos + 1:
                     chk.violation("C04 exit 127 abandons every run with the same executable", case,
                                   "%d starts of the group using the missing binary" % (pos + 1), bad_starts)
                 if sorted(good) != [("B1", 1), ("B1", 2), ("B3", 1), ("B3", 2)]:
                     chk.violation("C04 runs with another executable are unaffected by 127", case,
                                   [("B1", 1), ("B1", 2), ("B3", 1), ("B3", 2)], sorted(good))
-                if ses.exit != 1:
+                if ses.exit != (0 if f else 1):
                     chk.violation("C04 exit status after missing binary", case, 1, ses.exit)
     chk.count("group_abort_sessions", ngroup)
     shutil.rmtree(d, ignore_errors=True)
